@@ -6,6 +6,7 @@
  *   roundtrip (C16) save->init, dup, csv->set->csv, get->set round trips
  *   userwins  (C16) explicit application settings vs. generated system configuration,
  *                   after init and after every awaited ares_reinit()
+ *   single    (C15) one to three valid directives with known meaning: absolute oracle
  *
  * The system environment is virtual (cfg_env.h): files live in a per-process scratch directory
  * below the cwd, the hard-coded /etc paths, getenv, gethostname, interface names, socket() and
@@ -23,6 +24,7 @@
 #include "cfg_prof_lineindep.h"
 #include "cfg_prof_roundtrip.h"
 #include "cfg_prof_userwins.h"
+#include "cfg_prof_single.h"
 
 typedef void (*cfg_case_fn)(vh_rng_t *rng, const vh_args_t *a);
 static const struct {
@@ -33,6 +35,7 @@ static const struct {
   { "lineindep", prof_lineindep },
   { "roundtrip", prof_roundtrip },
   { "userwins",  prof_userwins  },
+  { "single",    prof_single    },
 };
 
 static vh_args_t a; /* static: the --opt strings it points to stay reachable for LSan */
